@@ -27,6 +27,7 @@ import Driver.OpsMCTSPolicy
 import Driver.OpsCmd
 import Driver.OpsCmd2
 import Driver.OpsCompose
+import Driver.OpsCheck
 namespace Driver
 
 def handlers : List Handler := [
@@ -58,6 +59,7 @@ def handlers : List Handler := [
   handleCmd,
   handleCmd2,
   handleCompose,
+  handleCheck,
 ]
 
 def step (st : St) (line : String) : St × String :=
